@@ -20,15 +20,15 @@ COMMON_NOTE = "Trusted base: simkube API-server model (h/simkube, conformance-te
 
 CLAIMED = {
     "C01": {
-        "text": "Every history of real XR reconciles (function-pipeline and P&T composers, production wiring) with up to F faults - each API call of the first W reconciles answering {error before, conflict, error after, crash before, crash after} - followed by fault-free reconciles to quiescence is enumerated (DFS with state-hash pruning); I1 (no live composed resource outside spec.resourceRefs) and I2 (one object per desired name, stable metadata.name) are evaluated after every effective write, I3 (quiescence, all desired resources present and referenced) at the end. quick W=2 F<=2, thorough W=3..4 F<=3, both map orders, 5 initial states.",
+        "text": "Every history of real XR reconciles (function-pipeline and P&T composers, production wiring) with up to F faults - each API call of the first W reconciles answering {error before, conflict, error after, crash before, crash after} - followed by fault-free reconciles to quiescence is enumerated (DFS with state-hash pruning); I1 (no live composed resource outside spec.resourceRefs) and I2 (one object per desired name, stable metadata.name) are evaluated after every effective write, I3 (quiescence, all desired resources present and referenced) at the end. quick W=2 F<=2, thorough W=3..4 F<=3, both map orders, 7 initial states; plus a function that names a resource itself after an XR field, and windows in which every read of a composed kind misses the controller's cache (served only by the uncached fallback).",
         "technique": "bounded exhaustive fault / crash-point enumeration on the real reconciler (stateless DFS over choice sequences, state-hash pruning)",
     },
     "C03": {
-        "text": "All pipelines of 1..N steps over a 12-14 behaviour alphabet (grow/shrink/rename desired sets, error, fatal/warning/normal results, requirement sequences that stabilise after 0,1,4 rounds or never) x 7 observed states (none, a, a+b, referenced-but-deleted, terminating, foreign-controlled, uncontrolled) x 2 map orders run through the real XR reconciler and compared with a reference interpreter: a failing pipeline performs no write on any composed kind and leaves spec.resourceRefs unchanged; a succeeding one deletes exactly observed minus final-desired and never deletes a still-desired resource; plus one injected API fault (reads included) per reconcile, and all P&T template-set changes x perturbations.",
+        "text": "All pipelines of 1..N steps over a 12-14 behaviour alphabet (grow/shrink/rename desired sets, error, fatal/warning/normal results, requirement sequences that stabilise after 0,1,4 rounds or never) x 7 observed states (none, a, a+b, referenced-but-deleted, terminating, foreign-controlled, uncontrolled) x 2 map orders run through the real XR reconciler and compared with a reference interpreter: a failing pipeline performs no write on any composed kind and leaves spec.resourceRefs unchanged; a succeeding one deletes exactly observed minus final-desired and never deletes a still-desired resource; plus one injected API fault (reads included) per reconcile, all P&T template-set changes x perturbations (incl. foreign owners that merely share the XR's name), and the same pipelines with the functions as real gRPC servers (v1, and v1beta1-only reached through the fallback) behind the real PackagedFunctionRunner.",
         "technique": "exhaustive enumeration of function-pipeline programs and single-fault reconciles against a reference interpreter",
     },
     "C05": {
-        "text": "Full product of per-resource (ready, invalid/render-failure) outcomes x XR-level ready x one function condition (Ready/Synced/Healthy/Custom x True/False x target) x forged desired-XR status (conditions, claimConditionTypes) x fatal step x initial conditions x claim syncer, for both composers; the statement is transcribed on the stored conditions and every case is re-run without the function-supplied conditions (differential oracle: system conditions of XR and claim must be identical).",
+        "text": "Full product of per-resource (ready, invalid/render-failure) outcomes x XR-level ready x one function condition (Ready/Synced/Healthy/Custom x True/False x target) x forged desired-XR status (conditions, claimConditionTypes) x fatal step x initial conditions x claim syncer, for both composers; the statement is transcribed on the stored conditions and every case is re-run without the function-supplied conditions (differential oracle: system conditions of XR and claim must be identical); plus the claim controller's cache lagging the XR by 0..3 versions over each readiness history: a claim is reported Ready=True only if the most recent copy of the XR the reconcile was given is Ready=True.",
         "technique": "exhaustive input-product enumeration on the real XR and claim reconcilers with a differential oracle",
     },
     "C06": {
@@ -43,14 +43,14 @@ CLAIMED.update({
         "technique": "exhaustive small-scope input enumeration against an independent reference implementation (real Resolve/Apply/PTComposer code)",
     },
     "C14": {
-        "text": "Depth-bounded exhaustive search (state-hash pruning ranked by remaining depth) over sequences of package edits (source tags incl. rollbacks and a second tag of one digest, history limit, activation policy, pull policy), registry changes (re-tag, failure), revision health flips and real package-manager reconciles in which every API write is a fault/crash point; A1 (never two Active) after every write, A2 (current revision exists, highest number, Active unless manual) after each completed reconcile, A3 (names are a function of package and digest), A4 (GC only of the oldest non-current revision, only above limit+1, never with limit 0/nil) on every delete. Two initial states (fresh, two-revision history).",
+        "text": "Depth-bounded exhaustive search (state-hash pruning ranked by remaining depth) over sequences of package edits (source tags incl. rollbacks and a second tag of one digest, history limit, activation policy, pull policy), registry changes (re-tag, failure), revision health flips and real package-manager reconciles in which every API write is a fault/crash point; A1 (never two Active) after every write, A2 (current revision exists, highest number, Active unless manual) after each completed reconcile, A3 (names are a function of package and digest), A4 (GC only of the oldest non-current revision, only above limit+1, never with limit 0/nil) on every delete. Initial states: fresh, two-revision history, and an established package under a registry menu (outage, re-tag, IfNotPresent) where a completed reconcile must leave as current a revision of a digest the source's tag has pointed at, whether or not it asked the registry.",
         "technique": "explicit-state search over event sequences with the real reconciler as transition function, plus fault/crash-point enumeration",
     },
 })
 
 CLAIMED.update({
     "C13": {
-        "text": "The real ControllerEngine, InformerTrackingCache, StoppableSource and watch GarbageCollector are compiled with a sync shim that makes every lock acquisition a scheduling point; a cooperative scheduler inside a testing/synctest bubble enumerates all schedules of 2-3 thread scenarios (11 curated collisions, all pairs - thorough: all triples - of single operations from two pre-states) with <= 2 (thorough 3) preemptions. Oracles: no deadlock, linearizability of the call/return history plus final observations against a sequential specification (brute force), handler registrations per kind = watches held by running controllers after the next start request, no registration and no live context after Stop. After every execution the engine's watch bookkeeping must agree with the informer cache (no lost or leaked registration, also across removed and re-created informers). The collector is additionally run on every combination of XR references and running watches.",
+        "text": "The real ControllerEngine, InformerTrackingCache, StoppableSource and watch GarbageCollector are compiled with a sync shim that makes every lock acquisition a scheduling point; a cooperative scheduler inside a testing/synctest bubble enumerates all schedules of 2-3 thread scenarios (11 curated collisions, all pairs - thorough: all triples - of single operations from two pre-states) with <= 2 (thorough 3) preemptions. Oracles: no deadlock, linearizability of the call/return history plus final observations against a sequential specification (brute force), handler registrations per kind = watches held by running controllers after the next start request, no registration and no live context after Stop. After every execution the engine's watch bookkeeping must agree with the informer cache (no lost or leaked registration, also across removed and re-created informers). The collector is additionally run on every combination of XR reference sets (none, one kind, two kinds, XRs that are being deleted) and running watches.",
         "technique": "stateless model checking of the real code under a controlled scheduler (preemption-bounded DFS over schedules) with a linearizability oracle",
         "note": "Interleaving granularity is lock acquisitions and (selected scenarios) lock releases of engine.go/cache.go/source.go, plus informer Get/Remove faults. Unsynchronised accesses between scheduling points (the 'does not race' clause) are invisible to a cooperative scheduler; the thorough tier therefore also runs the same scenario bodies free-running under the Go race detector (auxiliary, sampling, never the deciding step). Fake manager / informer cache / controller stand in for controller-runtime.",
     },
@@ -58,32 +58,32 @@ CLAIMED.update({
 
 CLAIMED.update({
     "C18": {
-        "text": "All allow-list x request rule-set pairs (sizes 0..2 each; thorough 2x2 over the 48-rule core universe = 1.27M pairs) over groups {'',g,*} x resources {r,r/status,*,*/status} x names {none,[n],['*']} x verbs {[get],[*]}, non-resource URL rules and mixed rules are run through the real validator and compared with an independent evaluator of Kubernetes RBAC over concrete requests (universe = mentioned constants + one fresh symbol per dimension): if Crossplane accepts, everything the requests grant is granted by the allow-list (being stricter is counted, not a violation). Reconciler level (real roles, binding and definition reconcilers over simkube): any uncovered request => no ClusterRole write; otherwise granted-by(system role) is a subset of own CRDs + same-family same-registry+org CRDs (+status, finalizers) + baseline + requests, over family label x package source (registry/org/prefix/digest/invalid) x owned reference lists; XRD roles grant exactly composite and claim resources.",
+        "text": "All allow-list x request rule-set pairs (sizes 0..2 each; thorough 2x2 over the 48-rule core universe = 1.27M pairs) over groups {'',g,*} x resources {r,r/status,*,*/status} x names {none,[n],['*']} x verbs {[get],[*]}, non-resource URL rules and mixed rules are run through the real validator and compared with an independent evaluator of Kubernetes RBAC over concrete requests (universe = mentioned constants + one fresh symbol per dimension): if Crossplane accepts, everything the requests grant is granted by the allow-list (being stricter is counted, not a violation); the validator instance is first used against an allow-all role that is then edited to the case's allow-list. Reconciler level (real roles, binding and definition reconcilers over simkube): any uncovered request => no ClusterRole write; otherwise granted-by(system role) is a subset of own CRDs + same-family same-registry+org CRDs (+status, finalizers) + baseline + requests, over family label x package source (registry/org/prefix/digest/invalid) x owned reference lists; XRD roles grant exactly composite and claim resources.",
         "technique": "exhaustive small-scope enumeration of rule-set pairs against an independent RBAC reference evaluator; real reconcilers over the API-server model",
     },
 })
 
 CLAIMED.update({
     "C17": {
-        "text": "Every lock graph on <= 3 (quick) / <= 4 (thorough: all 65,536 adjacency matrices x every set of missing nodes = 83,521) packages x Go map iteration orders (all permutations, owned by the overlay) for both DAG implementations against reference cycle detection, transitive closure and topological-order validation; version selection through the real resolver reconciler for all ordered tag lists over {v1.0.0,v1.1.0,v2.0.0,v1.2.0-rc.1,1.0,latest,v0.9.0} x 11 constraint strings (ranges, exact, digest, invalid) x installed version x upgrade/downgrade options against a reference selection rule; every cyclic lock performs no package write; PackageDependencyManager.Resolve totals and verdict against a reference for every graph x constraint assignment.",
+        "text": "Every lock graph on <= 3 (quick) / <= 4 (thorough: all 65,536 adjacency matrices x every set of missing nodes = 83,521) packages x Go map iteration orders (all permutations, owned by the overlay) for both DAG implementations against reference cycle detection, transitive closure and topological-order validation; version selection through the real resolver reconciler for all ordered tag lists over {v1.0.0,v1.1.0,v2.0.0,v1.2.0-rc.1,1.0,latest,v0.9.0} x 11 constraint strings (ranges, exact, digest, invalid) x installed version x upgrade/downgrade options against a reference selection rule; every cyclic lock performs no package write; PackageDependencyManager.Resolve totals and verdict against a reference for every graph x constraint assignment x which dependency is installed by digest.",
         "technique": "exhaustive small-scope enumeration (all digraphs, all map orders, all tag lists) against independent reference algorithms",
     },
 })
 
 CLAIMED.update({
     "C16": {
-        "text": "Depth-bounded exhaustive search (state-hash pruning) over upgrade / rollback histories starting from an established revision: package source edits, real package-manager reconciles (which activate and deactivate revisions), real revision reconciles in any order (real parser, linter, filesystem cache, APIEstablisher incl. its dry-run validation pass), garbage-collector runs and deletion of inactive revisions, with an API error at any call of a revision reconcile; five image variants (plain upgrade; an object controlled by another package's revision; an object the API server rejects; a foreign-controlled object; an uncontrolled pre-existing object). E1 all-or-nothing on establish failure, E2 only active revisions create / become controller (checked at every write), E3 deactivation drops control but keeps ownership, E4 established objects keep the package as non-controlling owner, E5 the garbage collector never deletes a CRD while its package exists.",
+        "text": "Depth-bounded exhaustive search (state-hash pruning) over upgrade / rollback histories starting from an established revision: package source edits, real package-manager reconciles (which activate and deactivate revisions), real revision reconciles in any order (real parser, linter, filesystem cache, APIEstablisher incl. its dry-run validation pass), garbage-collector runs and deletion of inactive revisions, with an API error at any call of a revision reconcile or, instead, one action of a third party between two calls (it deletes a package object, or creates it under another owner's control); seven image variants (plain upgrade; an object controlled by another package's revision; an object the API server rejects; a foreign-controlled object; an uncontrolled pre-existing object). E1 all-or-nothing on establish failure, E2 only active revisions create / become controller (checked at every write), E3 deactivation drops control but keeps ownership, E4 established objects keep the package as non-controlling owner, E5 the garbage collector never deletes a CRD while its package exists.",
         "technique": "explicit-state search over event sequences with the real reconcilers as transition function, plus API-fault enumeration",
     },
 })
 
 CLAIMED.update({
     "C11": {
-        "text": "Exhaustive enumeration of XRDs built from choices: 18 spec-property variants (each machinery key shadowed with a different type, all at once, none) x 7 status variants x name maxLength x required lists x CEL rules x oneOf / preserve-unknown-fields / descriptions, 10 version layouts with exactly one referenceable version, claim names absent / present / colliding in each name (also with the other optional name omitted), default policies, conversion; oracle: structural (every version, one storage version = referenceable, scope, controller reference, author properties / required / rules preserved) and differential (the CRD rendered with colliding author properties equals the one rendered without them; machinery keys equal an independent key->type table; independent of map iteration order); all 22x22 (old,new) update pairs and all creates go through ValidateUpdate/ValidateCreate and the real admission webhook; the real definition and offered reconcilers render the same CRDs over simkube.",
+        "text": "Exhaustive enumeration of XRDs built from choices: 18 spec-property variants (each machinery key shadowed with a different type, all at once, none) x 7 status variants x name maxLength x required lists x CEL rules x oneOf / preserve-unknown-fields / descriptions, 10 version layouts with exactly one referenceable version, claim names absent / present / colliding in each name (also with the other optional name omitted), default policies, conversion; oracle: structural (every version, one storage version = referenceable, scope, controller reference, author properties / required / rules preserved) and differential (the CRD rendered with colliding author properties equals the one rendered without them; machinery keys equal an independent key->type table; independent of map iteration order); all 24x24 (old,new) update pairs x XRD life cycle {live, being deleted, being deleted with a finalizer removed} and all creates go through ValidateUpdate/ValidateCreate and the real admission webhook; a rival XRD offering the same claim names must not take over the claim CRD; the real definition and offered reconcilers render the same CRDs over simkube.",
         "technique": "exhaustive small-scope input enumeration with structural and differential oracles on the real xcrd / validation / webhook code",
     },
     "C15": {
-        "text": "The real revision reconciler (image backend, parser, per-type linters, version gate, signature gate, filesystem package cache) with a recording establisher over: the full product revision type x meta kind {each type, none, two} x up to 1 (thorough 2) objects of 6 kinds x 4 image layouts x 4 crossplane constraints x ignore flag x 4 signature-gate states, each reconciled twice (registry path then cache path) against the table of contributing/specifications/xpkg.md; 4 image layouts with and without decoy files named package.yaml in sub-directories of the package layer; every registry read-fault position (each 64 bytes and every YAML document boundary +-1, on the validation read or the parse read, delivered as (0,err), (n>0,err), early EOF or (n>0,EOF)) and every single filesystem fault of the cache from 4 initial cache states, each followed by fault-free reconciles: the establisher never receives a set that differs from the image's; and the xpkg build round trip for every allowed object subset.",
+        "text": "The real revision reconciler (image backend, parser, per-type linters, version gate, signature gate, filesystem package cache) with a recording establisher over: the full product revision type x meta kind {each type, none, two} x up to 1 (thorough 2) objects of 6 kinds x 4 image layouts x 4 crossplane constraints x ignore flag x 4 signature-gate states, each reconciled twice (registry path then cache path) against the table of contributing/specifications/xpkg.md; 4 image layouts with and without decoy files named package.yaml in sub-directories of the package layer; every registry read-fault position (each 64 bytes and every YAML document boundary +-1, on the validation read or the parse read, delivered as (0,err), (n>0,err), early EOF or (n>0,EOF)) and every single filesystem fault of the cache from 4 initial cache states, each followed by fault-free reconciles: the establisher never receives a set that differs from the image's; the xpkg build round trip for every allowed object subset; and the signature gate end to end: the real signature-verification reconciler and ImageConfigStore (scripted validator) feeding the real revision reconciler, 6 ImageConfig sets x verdict x one failing read (server error or 404).",
         "technique": "exhaustive input-product enumeration plus exhaustive single-fault (read position / filesystem operation) enumeration on the real reconciler",
     },
 })
@@ -101,40 +101,40 @@ CLAIMED.update({
         "technique": "exhaustive configuration enumeration plus single-fault enumeration on the real reconcilers against a reference model of published keys",
     },
     "C19": {
-        "text": "Depth-bounded exhaustive search (state-hash pruning) over creations / deletions of two Usages of one resource (by reference, by selector, with controller matching, with and without a using resource, naming API version v1 or v2, replayDeletion, composed Usages whose deletion waits for the using resource; from the initial state and from a state with both Usages Ready), real usage reconciles with an API write fault or crash at any call, DELETE requests with every propagation policy through both API versions, deletion of the using resource, garbage-collector runs and clock advances; DELETE admission is dispatched to the real webhook handler and index function according to the repository's webhook configuration. M1 every DELETE is refused while a Usage of the resource is Ready and not being deleted and allowed when none names it, M2 refused attempts are recorded, M3 marker before ready, M4 marker removed only by the last Usage (no other Usage of the resource exists, waiting-to-be-finalized ones included), M5 a Usage by a resource is owned by it.",
+        "text": "Depth-bounded exhaustive search (state-hash pruning) over creations / deletions of two Usages of one resource (by reference, by selector, with controller matching, with and without a using resource, naming API version v1 or v2, replayDeletion, composed Usages whose deletion waits for the using resource; from the initial state and from a state with both Usages Ready), real usage reconciles with an API write fault or crash at any call, DELETE requests with every propagation policy through both API versions, deletion of the using resource, garbage-collector runs, the using resource re-created under the same name, and clock advances; plus thread-mode scenarios in which the finalization of one Usage and the creation + reconciles of another Usage of the same resource run concurrently (all interleavings of their API calls, <= 2, thorough 3 preemptions); DELETE admission is dispatched to the real webhook handler and index function according to the repository's webhook configuration. M1 every DELETE is refused while a Usage of the resource is Ready and not being deleted and allowed when none names it, M2 refused attempts are recorded, M3 marker before ready, M4 marker removed only by the last Usage (no other Usage of the resource exists, waiting-to-be-finalized ones included), M5 a Usage by a resource is owned by that very object (UID).",
         "technique": "explicit-state search over event sequences with the real reconciler and admission handler as transition functions, plus fault/crash-point enumeration",
     },
 })
 
 CLAIMED.update({
     "C07": {
-        "text": "Real claim reconciler over simkube in three modes (client-side syncer, server-side-apply syncer, upgrade from the former to the latter), three reconciles per case (first sync, re-sync after the XR side wrote its own state and the user edited the claim, settle): claims valid for the generated claim CRD (pruned and defaulted with the real apiextensions structural-schema code) with 4 user-field shapes whose nested names collide with machinery names, 18 (thorough: all 768) subsets of claim machinery fields x update policy, 9 label / annotation key classes (reserved, subdomains, near-miss domains, bare names; thorough: all 512 subsets), external names on either side, 3 XR status variants; every stored field of the XR and the claim is compared with an independent partition of the field space (claim-owned / XR-owned / shared by policy) after every reconcile.",
+        "text": "Real claim reconciler over simkube in three modes (client-side syncer, server-side-apply syncer, upgrade from the former to the latter), three reconciles per case (first sync, re-sync after the XR side wrote its own state and the user edited the claim, settle): claims valid for the generated claim CRD (pruned and defaulted with the real apiextensions structural-schema code) with 4 user-field shapes whose nested names collide with machinery names, 18 (thorough: all 768) subsets of claim machinery fields x update policy, 9 label / annotation key classes (reserved, subdomains, near-miss domains, bare names; thorough: all 512 subsets), external names on either side, 3 XR status variants; every stored field of the XR and the claim is compared with an independent partition of the field space (claim-owned / XR-owned / shared by policy) after every reconcile; the reconciler and syncer instances first serve other claims of each update policy (state kept in an instance must not leak between claims).",
         "technique": "exhaustive configuration enumeration against an independent reference partition of the field space (real reconciler and syncers)",
     },
 })
 
 CLAIMED.update({
     "C02": {
-        "text": "Exhaustive table of 18 write sites (function composer: referenced object, desired-name collision, garbage collection; P&T composer: referenced object, name fixed by a patch, removed template; XR connection secret; claim connection secret with both syncers; XRD to composite CRD and claim CRD; package to revision; active revision establishing an object; RBAC provider system / edit roles and binding; XRD roles) x target pre-state {absent, uncontrolled, controlled by the owner, controlled by a foreign UID; composer sites also: adopted by a foreign UID while the controller's cache still serves the version it owned / that was uncontrolled, then the cache catches up} x 1..3 reconcile rounds on the real reconcilers over simkube: a foreign-controlled target stays byte-identical, the write log shows no effective write addressed to it, and the conflict surfaces as a returned error, a warning event or an unsynced condition (sites that never address the foreign object need not surface anything); absent / owned rows are controls proving the site does write.",
+        "text": "Exhaustive table of 18 write sites (function composer: referenced object, desired-name collision, garbage collection; P&T composer: referenced object, name fixed by a patch, removed template; XR connection secret; claim connection secret with both syncers; XRD to composite CRD and claim CRD; package to revision; active revision establishing an object; RBAC provider system / edit roles and binding; XRD roles) x target pre-state {absent, uncontrolled, controlled by the owner, controlled by a foreign UID; composer sites also: adopted by a foreign UID while the controller's cache still serves the version it owned / that was uncontrolled, then the cache catches up; sites that write with optimistic concurrency also: adopted by a foreign UID just before the k-th (k<=6) API call of the reconcile that addresses the target} x 1..3 reconcile rounds on the real reconcilers over simkube: a foreign-controlled target stays byte-identical, the write log shows no effective write addressed to it, and the conflict surfaces as a returned error, a warning event or an unsynced condition (sites that never address the foreign object need not surface anything); absent / owned rows are controls proving the site does write.",
         "technique": "exhaustive configuration-table enumeration on the real reconcilers with a write-log oracle",
     },
 })
 
 CLAIMED.update({
     "C08": {
-        "text": "Four closed sub-systems searched by depth-bounded DFS with state-hash pruning, every transition executed by the real code: H1 claim + XR + dependent with a provider finalizer (Background / Foreground, both syncers); H2 XRD with the real definition and offered reconcilers, a recording controller engine, and a bound claim + XR that are only reconciled while their dynamic controller runs (composite CRD ours or foreign; a CRD whose deletion was requested stays terminating behind the API server's customresourcecleanup finalizer until a crd-cleanup event has seen its instances go; a third party may delete the composite CRD; starts: steady, XRD deletion under way, CRD deleted by a third party); H3 package revision + dependency Lock (real revision reconciler and PackageDependencyManager); H4 composed Usage + using + used resource. Events: user deletions (claim, XR, XRD, revision, Usage, using resource), one full reconcile of any controller on any object with an API fault or crash at any call, single garbage-collector steps (which one is a choice), third-party finalizer removal. Trace monitors at every write: claim finalizer removed only after an XR delete was issued (Foreground: XR gone); CRD deleted only with no instances and a stopped controller; controller stopped only with no instances; XRD finalizers removed only when the CRD is gone or never ours; revision finalized only when out of the Lock; composed Usage finalized only when its using resource is gone.",
+        "text": "Four closed sub-systems searched by depth-bounded DFS with state-hash pruning, every transition executed by the real code: H1 claim + XR + dependent with a provider finalizer (Background / Foreground, both syncers); H2 XRD with the real definition and offered reconcilers on the real ControllerEngine (over harness informers and controllers whose context shows whether they were stopped; informer lookups may fail like API calls), and a bound claim + XR that are only reconciled while their dynamic controller runs (composite CRD ours or foreign; a CRD whose deletion was requested stays terminating behind the API server's customresourcecleanup finalizer until a crd-cleanup event has seen its instances go; a third party may delete the composite CRD; starts: steady, XRD deletion under way, CRD deleted by a third party); H3 package revision + dependency Lock (real revision reconciler and PackageDependencyManager); H4 composed Usage + using + used resource. Events: user deletions (claim, XR, XRD, revision, Usage, using resource), one full reconcile of any controller on any object with an API fault or crash at any call, single garbage-collector steps (which one is a choice), third-party finalizer removal. Trace monitors at every write: claim finalizer removed only after an XR delete was issued (Foreground: XR gone); CRD deleted only with no instances and a stopped controller; controller stopped only with no instances; XRD finalizers removed only when the CRD is gone or never ours; revision finalized only when out of the Lock; composed Usage finalized only when its using resource is gone.",
         "technique": "explicit-state search over event sequences (deletions, reconciles, GC steps) with the real reconcilers as transition functions, plus fault/crash-point enumeration",
     },
 })
 
 CLAIMED.update({
     "C04": {
-        "text": "All pipelines of 1..2 (thorough 1..3) steps over 28 request-deterministic primitives (desired add/drop/reorder/mutate, context set/overwrite/clear, results and conditions of each severity/target, fatal, composite status and connection details, requirements by name present/absent, by labels with 0/1/2 matches, requirements that change once, drop, chain up to the iteration limit or never stabilise, step input, credentials present/absent - every step calls its credential 'creds' and points it at its own secret) x 4 observed states run through the real XR reconciler (FunctionComposer + FetchingFunctionRunner + ExistingExtraResourcesFetcher) with a recording function runner; the recorded request sequence is compared call by call (proto.Equal) with an independent reference interpreter of the function contract, plus surfaced events, conditions and the final applied state. PackagedFunctionRunner: all operation sequences of depth 3 (thorough 4) over {run f, run g, switch active revision, change endpoint, uninstall / reinstall, GC connections} against in-process gRPC servers on unix sockets (v1 and v1beta1-only): exactly one delivery at the active revision's endpoint, version fallback preserves request and response, GC closes exactly the connections of uninstalled functions.",
+        "text": "All pipelines of 1..2 (thorough 1..3) steps over 28 request-deterministic primitives (desired add/drop/reorder/mutate, context set/overwrite/clear, results and conditions of each severity/target, fatal, composite status and connection details, requirements by name present/absent, by labels with 0/1/2 matches, requirements that change once, drop, chain up to the iteration limit or never stabilise, step input, credentials present/absent - every step calls its credential 'creds' and points it at its own secret) x 4 observed states run through the real XR reconciler (FunctionComposer + FetchingFunctionRunner + ExistingExtraResourcesFetcher) with a recording function runner; the recorded request sequence is compared call by call (proto.Equal) with an independent reference interpreter of the function contract, plus surfaced events, conditions and the final applied state; and with one failing read (XR secret, composed resources through the cache or the uncached fallback, extra resources, credential secrets) every request still sent equals the reference's. PackagedFunctionRunner: all operation sequences of depth 3 (thorough 4) over {run f, run g, switch active revision, change endpoint, uninstall / reinstall, GC connections} against in-process gRPC servers on unix sockets (v1 and v1beta1-only): exactly one delivery at the active revision's endpoint, version fallback preserves request and response, GC closes exactly the connections of uninstalled functions.",
         "technique": "exhaustive enumeration of function-pipeline programs and runner operation sequences against an independent reference interpreter",
         "note": "Trusted base: simkube, gRPC and protobuf libraries (real sockets for the runner part, run outside the synctest bubble with a watchdog deadline that is a harness error, never a verdict).",
     },
     "C20": {
-        "text": "The step list of `crossplane core init` reproduced with the same constructors, options and order (real TLS/CA generator, core CRDs and webhook configurations from /repo/cluster, lock, package installer, store config, runtime config, CRD migrator) over simkube: 38 (thorough 70) initial stores (empty, fully initialised, after step i for every i, CA with only key or cert, TLS secrets missing each key, other CA bundles on every carrier, user-edited defaults, an older release) x 3 runs - store equality (symbolic: key material replaced by its location), byte-identical secrets, unchanged resourceVersions of default objects, x509 verification of issued certificates for the service DNS names, bundles validate the serving certificate; 3 package kinds x 7 (12) reference forms x 8 (15) installed sets - no two packages of a kind share a repository, existing objects keep their name; a run aborted by an API error / crash at any call followed by a clean run equals one clean run; and the package installer step alone with every API call (its three Lists included) a fault point, from stores with packages installed under user-chosen names: neither the faulted run nor faulted + clean run leaves a package object a clean run would not.",
+        "text": "The step list of `crossplane core init` reproduced with the same constructors, options and order (real TLS/CA generator, core CRDs and webhook configurations from /repo/cluster, lock, package installer, store config, runtime config, CRD migrator) over simkube: 38 (thorough 70) initial stores (empty, fully initialised, after step i for every i, CA with only key or cert, TLS secrets missing each key, other CA bundles on every carrier, user-edited defaults, an older release) x 3 runs - store equality (symbolic: key material replaced by its location), byte-identical secrets, unchanged resourceVersions of default objects, x509 verification of issued certificates for the service DNS names, bundles validate the serving certificate; 3 package kinds x 9 (14) reference forms (incl. registry hosts with a port, by tag and by digest) x 10 (17) installed sets - no two packages of a kind share a repository, existing objects keep their name; a run aborted by an API error / crash at any call followed by a clean run equals one clean run; and the package installer step alone with every API call (its three Lists included) a fault point, from stores with packages installed under user-chosen names: neither the faulted run nor faulted + clean run leaves a package object a clean run would not.",
         "technique": "exhaustive enumeration of initial stores, reference forms and abort points (fault enumeration) with a differential single-clean-run oracle",
     },
 })
